@@ -2,4 +2,14 @@
 
 package tor
 
+import (
+	"time"
+
+	"github.com/jech/storrent/hash"
+)
+
 func verifYield(point string) {}
+
+func verifAnnounce(h hash.Hash, ipv6 bool, port uint16) {}
+
+func verifTickers(ticker, slowTicker *time.Ticker) {}
